@@ -35,7 +35,7 @@ def ops(draw, default):
 
 @st.composite
 def cases(draw):
-    spec = draw(gen.tree_specs(max_depth=3, max_shape=5, defaults=(0, 0, 0, 2, 1.5), floats=True))
+    spec = draw(gen.tree_specs(max_depth=3, max_shape=5, defaults=(0, 0, 0, 2, 1.5), floats=True, auth="any"))
     hows = ["ref", "fiber", "uncompressed", "yaml", "deepcopy"]
     if len(spec["shape"]) <= 2:
         hows += ["unowned", "unowned"]
